@@ -74,8 +74,10 @@ def oracle_parser(ctx, cfg, data, segs, o, default_limits):
             if status.startswith("bad"):
                 ctx.violation("C01/accepted-nonstrict/" + status[4:].replace(" ", "-"), case,
                               f"message #{i} delivered ({st[0]!r} {st[1][:40]!r}) but the strict reading fails: {status}")
-            elif status in ("close", "switch") and not o["err"]:
-                ctx.violation("C01/accepted-after-" + status, case, f"message #{i} delivered after a {status}")
+            elif status == "close" and not o["err"]:
+                ctx.violation("C01/accepted-after-close", case, f"message #{i} delivered after a closing request")
+            # status == "switch": a CONNECT / Upgrade request only *asks* for a protocol switch; the server may
+            # decline and go on with HTTP/1, so later messages are not judged here
             elif status == "incomplete":
                 # head delivered before its body is complete: fine as long as it is the head the strict reader is inside of
                 pass
